@@ -112,6 +112,14 @@ func TestByName(t *testing.T) {
 					c.Fields = append(c.Fields, genNamedField(t, s.Provs))
 				}
 			}
+			for nd := rapid.SampledFrom([]int{0, 0, 1, 2}).Draw(t, "ndecoys"); nd > 0; nd-- {
+				pos := rapid.IntRange(0, len(c.Fields)).Draw(t, "decoypos")
+				df := pop.DrawDecoyField(t)
+				if strings.Contains(df.Type, "by-name") {
+					df = pop.FieldSpec{Type: "decoy:literal-int", Tag: `value:"7"`} // named points are this test's own subject (sentinels)
+				}
+				c.Fields = append(c.Fields[:pos], append([]pop.FieldSpec{df}, c.Fields[pos:]...)...)
+			}
 			s.Cons = append(s.Cons, c)
 		}
 		s.Finish(t)
@@ -166,7 +174,7 @@ func TestByName(t *testing.T) {
 				continue
 			}
 			for _, p := range g.Points[c] {
-				if p.Val == "" {
+				if p.Val == "" || p.Tag != "wire" {
 					continue
 				}
 				// classify
@@ -210,6 +218,13 @@ func TestByName(t *testing.T) {
 					if gotObj != want {
 						t.Fatalf("C07: optional point %v names no compatible component and must stay untouched (sentinel %p), holds %T %v\nscenario: %s", p, want, gotObj, gotObj, desc)
 					}
+				}
+			}
+		}
+		if in.Out.Err == nil {
+			for k, c := range s.Cons {
+				if err := pop.CheckDecoys(in.Comps[s.ConsumerIndex(k)], c); err != nil {
+					t.Fatalf("C07: %v\nscenario: %s", err, desc)
 				}
 			}
 		}
@@ -299,7 +314,6 @@ func dedup(xs []string) []string {
 }
 
 var _ = graph.CheckWiring
-
 
 // TestNamedCreationFails: the named component exists and fits, but its creation fails (Init error):
 // start-up must fail - for an optional point too (the component is there, it just cannot be built).
